@@ -4201,7 +4201,9 @@ func (p *Posix) CopyObject(ctx context.Context, input s3response.CopyObjectInput
 	vEnabled := p.isBucketVersioningEnabled(vStatus)
 
 	if srcVersionId != "" {
-		if !p.versioningEnabled() || !vEnabled {
+		// versions exist (and stay readable by id) in a bucket whose
+		// versioning is enabled or suspended
+		if !p.versioningEnabled() || vStatus == "" {
 			return nil, s3err.GetAPIError(s3err.ErrInvalidVersionId)
 		}
 		vId, err := p.meta.RetrieveAttribute(nil, srcBucket, srcObject, versionIdKey)
@@ -4210,6 +4212,10 @@ func (p *Posix) CopyObject(ctx context.Context, input s3response.CopyObjectInput
 		}
 		if err != nil && !errors.Is(err, meta.ErrNoSuchKey) {
 			return nil, fmt.Errorf("get src object version id: %w", err)
+		}
+		if errors.Is(err, meta.ErrNoSuchKey) {
+			// a current version without a version id is the null version
+			vId = []byte(nullVersionId)
 		}
 
 		if string(vId) != srcVersionId {
